@@ -66,6 +66,8 @@ def zr(x):
         return z3.RealVal(f.numerator) / z3.RealVal(f.denominator) if f.denominator != 1 else z3.RealVal(f.numerator)
     if isinstance(x, Fraction):
         return z3.RealVal(x.numerator) / z3.RealVal(x.denominator)
+    if isinstance(x, z3.ArithRef):
+        return z3.ToReal(x) if x.is_int() else x
     raise Unsupported("real arithmetic with %s" % type(x).__name__)
 
 
